@@ -411,24 +411,24 @@ theorem sat_classify_nd : ∀ (l : List (Path × Option Info)) (pl : RollbackPla
 /-! ### facts about the original view -/
 
 theorem Inv.v0_root {w : World} (h : Inv S v0 w) : v0.isDirAt [] := by
-  obtain ⟨m0, hg0, rfl⟩ := h.orig; exact S.root_dir hg0
+  exact h.orig.root
 
 theorem Inv.v0_parent {w : World} (h : Inv S v0 w) {k : Key} (hk : v0 k ≠ none) (hne : k ≠ []) :
     v0.isDirAt k.dropLast := by
-  obtain ⟨m0, hg0, rfl⟩ := h.orig; exact S.parent_dir hg0 hk hne
+  exact h.orig.parent hk hne
 
 theorem Inv.v0_nolink {w : World} (h : Inv S v0 w) {k : Key} {t : Path} {mt : Meta} : v0 k ≠ some (.link t mt) := by
-  obtain ⟨m0, hg0, rfl⟩ := h.orig; exact S.no_link hg0
+  exact h.orig.nolink
 
 theorem Inv.v0_mode {w : World} (h : Inv S v0 w) {k : Key} {n : Node} (hk : v0 k = some n) : n.meta.mode < 4096 := by
-  obtain ⟨m0, hg0, rfl⟩ := h.orig; exact S.mode_lt hg0 hk
+  exact h.orig.mode hk
 
 theorem Inv.v0_erased {w : World} (h : Inv S v0 w) {k : Key} {mt : Meta} (hk : v0 k = some (.dir mt)) :
     mt.mtime = .fresh := by
-  obtain ⟨m0, hg0, rfl⟩ := h.orig; exact S.erased hg0 hk
+  exact h.orig.erased hk
 
 theorem Inv.v0_pkey {w : World} (h : Inv S v0 w) {k : Key} (hk : v0 k ≠ none) : PKey k := by
-  obtain ⟨m0, hg0, rfl⟩ := h.orig; exact S.pkey hg0 hk
+  exact h.orig.pkey hk
 
 /-- nothing existed below a key that did not exist or was a regular file -/
 theorem Inv.v0_below {w : World} (h : Inv S v0 w) {k : Key} (hk : ¬ v0.isDirAt k) :
